@@ -28,9 +28,11 @@ pub struct FibexError { _p: u8 }
 
 // CanPlugin::process_msg: `if let Some(Ok(text)) = decoded_header { .. } else if msg.payload_text.is_none() { .. }`
 //@ extract src/plugins/can.rs region `if let Some(Ok(text)) = decoded_header {` .. `if let Some(Ok(text)) = decoded_header {` in <Plugin for CanPlugin>::process_msg
-//@   sig pub fn can_tail(msg: &mut DltMessage, decoded_header: Option<Result<String, FibexError>>)
+//@   sig pub fn can_tail(msg: &mut DltMessage, decoded_header: Option<Result<String, FibexError>>) -> (r: bool)
+//@   tail `true`
 //@   spec
 //@|    ensures text_only(*old(msg), *final(msg)), // O:tail.can.frame
+//@|        r, // O:tail.can.accepts (handing over the result never rejects the message)
 //@ end
 
 //@ extract src/plugins/someip.rs enum SegmentedType
@@ -38,9 +40,11 @@ pub struct FibexError { _p: u8 }
 //@ end
 // SomeipPlugin::process_msg: `if segmented_type != SegmentedType::None { if let Some(Ok(text)) = decoded_header { .. } else { .. } }`
 //@ extract src/plugins/someip.rs region `if segmented_type != SegmentedType::None {` .. `if segmented_type != SegmentedType::None {` in <Plugin for SomeipPlugin>::process_msg
-//@   sig pub fn someip_tail(msg: &mut DltMessage, segmented_type: SegmentedType, decoded_header: Option<Result<String, FibexError>>)
+//@   sig pub fn someip_tail(msg: &mut DltMessage, segmented_type: SegmentedType, decoded_header: Option<Result<String, FibexError>>) -> (r: bool)
+//@   tail `true`
 //@   spec
 //@|    ensures
+//@|        r, // O:tail.someip.accepts
 //@|        text_only(*old(msg), *final(msg)), // O:tail.someip.frame
 //@|        segmented_type == SegmentedType::None ==> *final(msg) == *old(msg), // O:tail.someip.untouched (a message that is no SOME/IP message is left alone)
 //@ end
@@ -57,11 +61,13 @@ impl DltMessage {
 #[verifier::external_body]
 pub fn vx_push_str(s: &mut String, t: &str) { unimplemented!() }
 //@ extract src/plugins/muniic.rs region `if DltMessage::process_msg_arg_iter(args, &mut text).is_ok() {` .. `if DltMessage::process_msg_arg_iter(args, &mut text).is_ok() {` in <Plugin for MuniicPlugin>::process_msg
-//@   sig pub fn muniic_tail(msg: &mut DltMessage, args: VxScanArgs, mut text: String, new_payload_text: String)
+//@   sig pub fn muniic_tail(msg: &mut DltMessage, args: VxScanArgs, mut text: String, new_payload_text: String) -> (r: bool)
+//@   tail `true`
 //@   sub R11 `text += " ";` => `vx_push_str(&mut text, " ");` ?
 //@   sub R11 `text += new_payload_text.as_str();` => `vx_push_str(&mut text, new_payload_text.as_str());` ?
 //@   spec
 //@|    ensures text_only(*old(msg), *final(msg)), // O:tail.muniic.frame
+//@|        r, // O:tail.muniic.accepts
 //@ end
 
 fn main() {}
